@@ -144,9 +144,63 @@ class Z3Thread(threading.Thread):
 
 
 def run_z3(text, timeout, seed=0):
-    th = Z3Thread(text, timeout, seed)
-    th.run()
-    return th.result
+    """z3 as a separate, killable process (z3's string/regex solver can ignore in-process timeouts)"""
+    return run_z3_cli(text, max(1, timeout))
+
+
+def parse_model(out):
+    model = {}
+    for m in re.finditer(r'\(define-fun (\S+) \(\) String\s+"((?:[^"]|"")*)"\)', out):
+        model[m.group(1).strip("|")] = '"' + m.group(2) + '"'
+    for m in re.finditer(r'\(define-fun (\S+) \(\) (Int|Bool)\s+(\(- \d+\)|-?\d+|true|false)\)', out):
+        model[m.group(1).strip("|")] = m.group(3)
+    return model
+
+
+class Z3Proc:
+    """z3 CLI in the background with the interface of Z3Thread (`result` tuple when finished); killable"""
+
+    def __init__(self, text, timeout):
+        f = tempfile.NamedTemporaryFile("w", suffix=".smt2", delete=False)
+        f.write(text + "\n(get-model)\n" if "(check-sat)" in text else text + "\n(check-sat)\n(get-model)\n")
+        f.close()
+        self.path, self.timeout, self.t0 = f.name, timeout, time.time()
+        self.proc = None
+        self._result = None
+
+    def start(self):
+        self.proc = subprocess.Popen(["z3-new", "-smt2", "-T:%d" % int(self.timeout), self.path],
+                                     stdout=subprocess.PIPE, stderr=subprocess.DEVNULL, text=True)
+
+    @property
+    def result(self):
+        if self._result is not None:
+            return self._result
+        if self.proc.poll() is None:
+            if time.time() - self.t0 > self.timeout + 5:
+                self.proc.kill()
+                self._result = ("unknown", time.time() - self.t0, None, "killed at the deadline")
+            return self._result
+        out = self.proc.stdout.read()
+        first = out.strip().splitlines()[0].strip() if out.strip() else "unknown"
+        model = parse_model(out) if first == "sat" else None
+        if first not in ("sat", "unsat"):
+            first = "unknown"
+        self._result = (first, time.time() - self.t0, model, "")
+        return self._result
+
+    def join(self, timeout=None):
+        t1 = time.time()
+        while self.result is None and (timeout is None or time.time() - t1 < timeout):
+            time.sleep(0.05)
+
+    def stop(self):
+        if self.proc is not None and self.proc.poll() is None:
+            self.proc.kill()
+        try:
+            os.unlink(self.path)
+        except OSError:
+            pass
 
 
 def run_z3_cli(text, timeout):
@@ -167,9 +221,7 @@ def run_z3_cli(text, timeout):
             return ("unknown", time.time() - t0, None, out[:200])
         model = None
         if first == "sat":
-            model = {}
-            for m in re.finditer(r'\(define-fun ([^ ]+) \(\) String\s+"((?:[^"]|"")*)"\)', out):
-                model[m.group(1)] = '"' + m.group(2) + '"'
+            model = parse_model(out)
         return (first, time.time() - t0, model, "")
     finally:
         try:
@@ -253,7 +305,7 @@ def _race(name, qtext, qf_builder, z3_only=False, budgets=None):
             out.update(verdict=r[0], backend="z3", time=time.time() - t_start, model=r[2], trail=trail,
                        ninst=ninst, gen_time=gen, text=qf_text)
             return out
-        th = Z3Thread(qf_text, budgets.get("z3_t", Z3_T), seed=3)
+        th = Z3Proc(qf_text, budgets.get("z3_t", Z3_T))
         th.start()
         jc = None
         if not z3_only:
@@ -391,7 +443,7 @@ def solve_vcs(vcs, rounds=2, jobs=None):
         out = [_solve_vc(i) for i in todo]
     else:
         # hard wall-clock limit: a solver call that ignores its own timeout must not hang the check
-        hard = float(os.environ.get("PYVC_HARD_LIMIT", "900"))
+        hard = float(os.environ.get("PYVC_HARD_LIMIT", "0")) or (600 + 400.0 * len(todo) / max(1, min(n, len(todo))))
         t0 = time.time()
         pool = mp.get_context("fork").Pool(min(n, len(todo)))
         out = []
